@@ -170,7 +170,10 @@ PLAN["C17"]["proofs"] = PLAN["C03"]["proofs"]
 PLAN["C10"]["proofs"] = [dict(module="BidiInv.tla", what="for every key/value universe and map size: forward and inverse are inverse functions of each other "
                               "(hence one-to-one both ways) is an inductive invariant of the Put / Remove / Clear statements (BidiOps, shared with the TLC model BidiMap)")]
 PLAN["C08"]["proofs"] = [dict(module="CursorIdx.tla", what="for every container size: the index iterator's index equals the abstract cursor position, stays in "
-                              "-1..size, and Next/Prev/First/Last answer withinRange(index) (inductive invariant)")]
+                              "-1..size, and Next/Prev/First/Last answer withinRange(index) (inductive invariant)"),
+                         dict(module="CursorKept.tla", what="for every size and every modification of the container while the iterator is kept: after "
+                              "Begin / End / First / Last the index iterator is again the abstract cursor over the CURRENT size (inductive invariant "
+                              "with a stale flag; relative moves from a stale position are unspecified)")]
 
 # ---- texts for MANIFEST.json -----------------------------------------------------------------------
 _MC = ("TLC explores the bounded TLA+ models of the property's state machine exhaustively, and every (reachable concrete "
